@@ -86,9 +86,7 @@ Proof. exact can_skip_below. Qed.
    Named _partial: the hypothesis cov_monotone ("below a rectangle b with cov b = CONTAINS, every meta tile that
    get_affected_level_tiles selects for a sub-rectangle of b is not NONE") combines monotonicity of the coverage
    with the geometric fact that a selected meta tile overlaps the rectangle it was selected for (C03's
-   affected_tiles_no_touch, for MetaGrid); that geometric fact is not proved here.  The converse
-   (walk_complete_interior / walk_complete_nested of DESIGN.md: every sufficiently interior coverage tile is
-   handed over) is not proved either; the harness checks it on the implementation with exact arithmetic. *)
+   affected_tiles_no_touch, for MetaGrid); that geometric fact is not proved here. *)
 Theorem walk_sound_partial :
   forall g msx msy cov levels root old t,
     geo_wf g msx msy -> levels_wf g levels -> levels <> [] ->
@@ -96,6 +94,41 @@ Theorem walk_sound_partial :
     In t (procs (geo_walk g msx msy cov 0 levels root old)) ->
     cov (meta_bbox g msx msy t) <> 0.
 Proof. exact walk_sound_geo_lemma. Qed.
+
+(* ---- everything selected *)
+
+(* Structural form: whenever there is a chain of meta tiles c_0 .. c_L (one per level from 0 to a seeded level L) such
+   that c_0 is among the tiles get_affected_level_tiles lists for the start rectangle, c_(k+1) among those listed for
+   limit_sub_bbox(previous rectangle, bbox of meta tile c_k), and no c_k is NONE for the coverage (chain_ok), then
+   c_L is handed to the workers - for every grid, meta size, coverage predicate, skip_geoms and level subset. *)
+Theorem walk_complete_chain :
+  forall g msx msy cov skipk levels root ch,
+    geo_wf g msx msy -> levels_wf g levels ->
+    ch <> [] -> chain_ok g msx msy cov root 0 ch ->
+    In (Z.of_nat (length ch) - 1) levels ->
+    In (last ch (0, 0, 0)) (procs (geo_walk g msx msy cov skipk levels root None)).
+Proof. exact walk_complete_chain_lemma. Qed.
+
+(* Geometric form (walk_complete_interior of DESIGN.md), for every grid shape and resolution list with non-increasing
+   resolutions up to L: take a point (px, py) such that at every traversed level k <= L its tile is a tile of the grid
+   and the meta tile owning it is not NONE for the coverage, that lies at least 1/10 pixel of level 0 inside the start
+   rectangle (the coverage extent) and, for k < L, at least 1/10 pixel of level k+1 inside its level-k meta tile.
+   Then the meta tile owning the point at the seeded level L is handed to the workers.
+   NOT proved: walk_complete_nested (for factor-2 pyramids the last premise is unnecessary because the edges of a
+   meta tile are tile edges of the next level); the 1/10-pixel premises are what the code's inset really loses on
+   irregular pyramids and at the border of the coverage extent. *)
+Theorem walk_complete_interior :
+  forall g msx msy cov skipk levels root px py L,
+    geo_wf g msx msy -> levels_wf g levels -> In L levels ->
+    (forall k, 0 <= k <= L ->
+               valid_level g k = true /\ point_in_grid g px py k /\
+               cov (meta_bbox g msx msy (point_meta g msx msy px py k)) <> 0) ->
+    inset root (res_at g 0 / 10) px py ->
+    (forall k, 0 <= k < L ->
+               res_at g (k + 1) <= res_at g k /\
+               inset (meta_bbox g msx msy (point_meta g msx msy px py k)) (res_at g (k + 1) / 10) px py) ->
+    In (point_meta g msx msy px py L) (procs (geo_walk g msx msy cov skipk levels root None)).
+Proof. exact walk_complete_interior_lemma. Qed.
 
 (* ---- runs to completion (finding C11-sliver, repaired) *)
 
